@@ -136,13 +136,14 @@ Proof.
   - destruct (lookup_owner (table s) owner); [|apply QQ; [apply quiet_refl | ds]].
     destruct (t_verdict (tasks s owner)); [apply QQ; [apply quiet_refl | ds]|].
     apply QQ; [apply quiet_set_task_samepc; reflexivity | ds].
-  - destruct (lookup_owner (table s) owner); [|apply QQ; [apply quiet_refl | ds]].
+  - destruct (lookup_owner (rtable s) owner); [|apply QQ; [apply quiet_refl | ds]].
     apply QQ; [apply quiet_set_task_samepc; reflexivity | ds].
-  - destruct (lookup_owner (table s) owner); [|apply QQ; [apply quiet_refl | ds]].
-    apply QQ; [|ds].
-    apply quiet_trans with (set_task s owner (with_rq (tasks s owner) (t_rq (tasks s owner)) true)).
-    + apply quiet_set_task_samepc; reflexivity.
-    + unfold quiet. split; [reflexivity | split; [reflexivity | intros t'; reflexivity]].
+  - destruct (lookup_owner (rtable s) owner).
+    + apply QQ; [|ds].
+      apply quiet_trans with (set_task s owner (with_rq (tasks s owner) (t_rq (tasks s owner)) true)).
+      * apply quiet_set_task_samepc; reflexivity.
+      * unfold quiet. split; [reflexivity | split; [reflexivity | intros t'; reflexivity]].
+    + apply QQ; [|ds]. unfold quiet. split; [reflexivity | split; [reflexivity | intros t'; reflexivity]].
   - destruct (pc_is_idle (t_pc (tasks s rtid))) eqn:E; [|apply QQ; [apply quiet_refl | ds]].
     assert (neutral (pcof s rtid) = true) as N by (unfold pcof; destruct (t_pc (tasks s rtid)); try discriminate; reflexivity).
     eapply triple_trans; [apply QQ; [apply quiet_mark | ds]|].
@@ -351,7 +352,7 @@ Proof.
     eapply triple_trans; [apply triple_of_pump_effect; [apply pump_effect_wake | apply data_wake]|]. fold s1.
     assert (neutral (pcof s1 t) = true) as N1 by (eapply neutral_after_pump_effect; [apply pump_effect_wake | exact N]).
     eapply triple_of_pcu; [ | exact N1 | ds].
-    apply quiet_pcu with (s1 := set_table (set_tasks s1 (drain (table s1) (tasks s1))) (next_sid s1) []); [|apply pcu_set_pc].
+    apply quiet_pcu with (s1 := drain_state s1); [|apply pcu_set_pc].
     unfold quiet. split; [reflexivity | split; [reflexivity|]]. intros t'. unfold pcof. cbn. apply drain_pc.
   - (* PC2 *)
     assert (neutral (pcof s t) = true) as N by (unfold pcof; rewrite Epc; reflexivity).
@@ -367,7 +368,12 @@ Proof.
   - (* PO0 *)
     assert (neutral (pcof s t) = true) as N by (unfold pcof; rewrite Epc; reflexivity).
     inversion H; subst. apply class_of_triple. eapply triple_of_pcu; [ | exact N | ds].
-    apply quiet_pcu with (s1 := set_table s (next_sid s + 1)%N (table s ++ [(next_sid s, t)])); [|apply pcu_set_task].
+    apply quiet_pcu with (s1 := set_rtable s (next_sid s + 1)%N (rtable s ++ [(next_sid s, t)])); [|apply pcu_set_task].
+    unfold quiet. split; [reflexivity | split; [reflexivity | intros ?; reflexivity]].
+  - (* PO0b *)
+    assert (neutral (pcof s t) = true) as N by (unfold pcof; rewrite Epc; reflexivity).
+    inversion H; subst. apply class_of_triple. eapply triple_of_pcu; [ | exact N | ds].
+    apply quiet_pcu with (s1 := set_table s (next_sid s) (table s ++ [(sid, t)])); [|apply pcu_set_task].
     unfold quiet. split; [reflexivity | split; [reflexivity | intros ?; reflexivity]].
   - (* PO1 *)
     assert (neutral (pcof s t) = true) as N by (unfold pcof; rewrite Epc; reflexivity).
@@ -433,6 +439,7 @@ Proof.
   - destruct (wr s); inversion H; subst; [apply mono_same; reflexivity|].
     eapply mono_trans; [|apply mono_finish_close]. split; [intros A; exact A | intros _; reflexivity].
   - discriminate.
+  - inversion H; subst. apply mono_same; reflexivity.
   - inversion H; subst. apply mono_same; reflexivity.
   - inversion H; subst. apply mono_same; reflexivity.
   - discriminate.
